@@ -424,7 +424,7 @@ def getPatternLoop (s : Src) : Nat → PatState → Nat → R PatState
             match s[p1]? with
             | some b =>
               if indent == 0 then
-                if b != 13 && b != 10 then none else some (indent, p1)
+                if !isEol s p1 then none else some (indent, p1)
               else if !isBytePatternContinuation b then none
               else some (indent, p1)
             | none => none
@@ -459,10 +459,17 @@ def getPatternLoop (s : Src) : Nat → PatState → Nat → R PatState
                     if st.role == .lineStart && !nonBlank && !placeableLed then
                       (usub stop 1).map fun a => Placeholder.text a stop 0 st.role
                     else some (.text sliceStart stop indent st.role)
-                  el.map fun e =>
-                    { st with commonIndent := ci,
-                              lastNonBlank := if nonBlank then some st.elements.length else st.lastNonBlank,
-                              elements := st.elements ++ [e] }
+                  -- text made only of characters that `trim` removes does not end the pattern
+                  -- (`&source[start..end].trim_end_matches(..).is_empty()`, a slicing site)
+                  let survives : Option Bool :=
+                    if nonBlank then (slice s start stop).map fun sp => (trimEnd s sp).stop != sp.start
+                    else some false
+                  match el, survives with
+                  | some e, some sv =>
+                    some { st with commonIndent := ci,
+                                   lastNonBlank := if sv then some st.elements.length else st.lastNonBlank,
+                                   elements := st.elements ++ [e] }
+                  | _, _ => none
                 else some { st with commonIndent := ci }
               else some st
             let role' := match term with
@@ -472,7 +479,7 @@ def getPatternLoop (s : Src) : Nat → PatState → Nat → R PatState
               | .eof => TextPos.continuation
             (match st2 with
              | some st2 => getPatternLoop s n { st2 with role := role' } q
-             | none => .panic "get_pattern: end - 1 underflow")
+             | none => .panic "get_pattern: end - 1 underflow or text slice")
           | .err e q => .err e q
           | .panic m => .panic m
           | .fuel => .fuel
@@ -892,8 +899,7 @@ def getCommentGo (s : Src) : Nat → Nat → List Span → Nat → R (List Span 
         | none => .panic "get_comment: ptr -= level underflow"
       else
         let level' := lineLevel
-        if p1 == s.size then .ok (content, level') p1
-        else if isEol s p1 then
+        if isEol s p1 then
           match getCommentLine s p1 with
           | .ok line q => getCommentGo s n level' (content ++ [line]) ((skipEol s q).getD q)
           | .err e q => .err e q
